@@ -38,7 +38,7 @@ import (
 
 type UWCase struct {
 	Transport
-	Window string `json:"window"`  // subscribe | teardown
+	Window string `json:"window"`  // subscribe | isubscribe (Server.Subscribe of an in-process callback) | teardown
 	ParkAt int    `json:"park_at"` // which of the provider calls / closing steps is held
 	Filter string `json:"filter"`  // the subscriber's filter (matches the topic)
 	V1QoS  byte   `json:"v1qos"`
@@ -95,7 +95,19 @@ func runUW(c UWCase) (fail, incon string, classes []string) {
 		}
 	}
 	defer rel()
+	ip := newChurnInproc()
+	ipDone := make(chan error, 1)
 	switch c.Window {
+	case "isubscribe":
+		b.SetGate(func(m, phase, tp string) {
+			if (m != "Subscribe" && m != "Retained") || tp != c.Filter {
+				return
+			}
+			if int(calls.Add(1))-1 == c.ParkAt && trapped.CompareAndSwap(false, true) {
+				<-release
+			}
+		})
+		go func() { ipDone <- b.Srv.Subscribe(c.Filter, c.SubQoS, &ip.fn) }()
 	case "subscribe":
 		b.SetGate(func(m, phase, tp string) {
 			if (m != "Subscribe" && m != "Retained") || tp != c.Filter {
@@ -162,7 +174,29 @@ func runUW(c UWCase) (fail, incon string, classes []string) {
 		}
 		return b
 	}
-	if c.Window == "subscribe" {
+	if c.Window == "isubscribe" {
+		select {
+		case err := <-ipDone:
+			if err != nil {
+				return fmt.Sprintf("Server.Subscribe(%q) returned %v", c.Filter, err), "", classes
+			}
+		case <-time.After(wire.DefaultWait):
+			return "", "Server.Subscribe did not return", classes
+		}
+		sawV2 := false
+		got := ip.take()
+		for _, d := range got {
+			isV1, isV2 := bytes.Equal(d.payload, v1), bytes.Equal(d.payload, v2)
+			if d.topic != topic || (!isV1 && !isV2) {
+				return fmt.Sprintf("the in-process subscriber received a message on %q with %d bytes that is neither version of the retained message", d.topic, len(d.payload)), "", classes
+			}
+			sawV2 = sawV2 || (isV2 && len(v2) > 0)
+		}
+		if len(v2) > 0 && !sawV2 {
+			return fmt.Sprintf("Server.Subscribe(%q) and a retained update of %q (accepted while the call was in progress, held at provider call %d): the callback received %d message(s) but never the new version, neither as retained copy nor as live forward", c.Filter, topic, c.ParkAt, len(got)), "", classes
+		}
+		b.Srv.Unsubscribe(c.Filter, &ip.fn)
+	} else if c.Window == "subscribe" {
 		if _, err := S.Take(func(p *codec.Packet) bool { return p.Type == codec.SUBACK && p.PacketID == 7 }, wire.DefaultWait); err != nil {
 			return fmt.Sprintf("no SUBACK for %q: %v", c.Filter, err), "", classes
 		}
@@ -199,7 +233,7 @@ func runUW(c UWCase) (fail, incon string, classes []string) {
 		return "fresh subscriber: " + err.Error(), "", classes
 	}
 	pubs, _ := pubsOf(rx)
-	what := fmt.Sprintf("a retained update of %q (%d bytes, QoS %d) was accepted while %s; a fresh subscription to \"rw/#\" afterwards", topic, len(v2), c.V2QoS, map[string]string{"subscribe": "a SUBSCRIBE for a matching filter was in progress", "teardown": "a matching subscriber's connection was going down"}[c.Window])
+	what := fmt.Sprintf("a retained update of %q (%d bytes, QoS %d) was accepted while %s; a fresh subscription to \"rw/#\" afterwards", topic, len(v2), c.V2QoS, map[string]string{"subscribe": "a SUBSCRIBE for a matching filter was in progress", "isubscribe": "a Server.Subscribe call for a matching filter was in progress", "teardown": "a matching subscriber's connection was going down"}[c.Window])
 	if len(v2) == 0 {
 		if len(pubs) != 0 {
 			return fmt.Sprintf("%s received %d retained message(s) although the update cleared the topic (first: %d bytes)", what, len(pubs), len(pubs[0].Payload)), "", classes
@@ -220,12 +254,12 @@ func runUW(c UWCase) (fail, incon string, classes []string) {
 }
 
 func genUW(t *rapid.T) UWCase {
-	c := UWCase{Window: rapid.SampledFrom([]string{"subscribe", "subscribe", "teardown"}).Draw(t, "window"),
+	c := UWCase{Window: rapid.SampledFrom([]string{"subscribe", "subscribe", "teardown", "isubscribe"}).Draw(t, "window"),
 		Filter: rapid.SampledFrom([]string{"rw/t/x", "rw/+/x", "rw/#", "#", "rw/t/+"}).Draw(t, "filter"),
 		V1QoS:  byte(rapid.IntRange(0, 1).Draw(t, "v1q")), V2QoS: byte(rapid.IntRange(0, 2).Draw(t, "v2q")),
 		V2Size: rapid.SampledFrom([]int{0, 5, 5, 300, 3000}).Draw(t, "v2size"), SubQoS: byte(rapid.IntRange(0, 2).Draw(t, "subq")),
 		ViaAPI: rapid.IntRange(0, 3).Draw(t, "viaapi") == 0}
-	if c.Window == "subscribe" {
+	if c.Window == "subscribe" || c.Window == "isubscribe" {
 		c.ParkAt = rapid.IntRange(0, 3).Draw(t, "parkat")
 	} else {
 		c.ParkAt = rapid.IntRange(0, 3).Draw(t, "parkat")
